@@ -19,11 +19,12 @@ mod c15 {
         }
     }
 
-    /// any well-formed list of up to N tablets: sorted, pairwise disjoint, first <= last
-    fn any_list<const N: usize>() -> (TableTablets, [(i64, i64, bool); N], usize) {
-        let n: usize = kani::any();
-        kani::assume(n <= N);
-        let mut t = TableTablets::new(TableSpec::borrowed("ks", "t"));
+    /// any well-formed list of exactly N tablets: sorted, pairwise disjoint, first <= last.
+    /// (The length is concrete - one harness per length - and the list is never dropped: a symbolic length puts every
+    /// Vec operation under a symbolic guard and the drop glue of `Tablet` (Vec + HashMap) dominated the formula.)
+    fn any_list<const N: usize>() -> (std::mem::ManuallyDrop<TableTablets>, [(i64, i64, bool); N], usize) {
+        let n: usize = N;
+        let mut t = std::mem::ManuallyDrop::new(TableTablets::new(TableSpec::borrowed("ks", "t")));
         let mut shape = [(0i64, 0i64, false); N];
         let mut prev_last: i64 = i64::MIN;
         let mut i = 0;
@@ -47,12 +48,7 @@ mod c15 {
     fn ov(a: (i64, i64), b: (i64, i64)) -> bool { a.0 <= b.1 && b.0 <= a.1 }
 
     /// twin of C15.TableTablets.add_tablet.contract
-    #[kani::proof]
-    #[kani::unwind(6)]
-    #[kani::stub(std::rt::thread_cleanup, noop)]
-    #[kani::stub(std::hash::RandomState::new, zero_random_state)]
-    fn c15_twin_add_tablet() {
-        const N: usize = 2;
+    fn twin_add_tablet<const N: usize>() {
         let (mut t, shape, n) = any_list::<N>();
         let old_flag = t.has_unknown_replicas;
         let (f, l, u): (i64, i64, bool) = (kani::any(), kani::any(), kani::any());
@@ -101,13 +97,27 @@ mod c15 {
         assert!(t.has_unknown_replicas == (old_flag || u), "unknown-replica flag = old || new tablet unresolved");
     }
 
+    macro_rules! twins {
+        ($($name:ident = $f:ident::<$n:expr>;)*) => {$(
+            #[kani::proof]
+            #[kani::unwind(6)]
+            #[kani::stub(std::rt::thread_cleanup, noop)]
+            #[kani::stub(std::hash::RandomState::new, zero_random_state)]
+            fn $name() {
+                $f::<$n>();
+            }
+        )*};
+    }
+    twins! {
+        c15_twin_add_tablet_n0 = twin_add_tablet::<0>;
+        c15_twin_add_tablet_n1 = twin_add_tablet::<1>;
+        c15_twin_add_tablet_n2 = twin_add_tablet::<2>;
+        c15_twin_tablet_for_token_n1 = twin_tablet_for_token::<1>;
+        c15_twin_tablet_for_token_n2 = twin_tablet_for_token::<2>;
+    }
+
     /// twin of C15.TableTablets.tablet_for_token.contract
-    #[kani::proof]
-    #[kani::unwind(6)]
-    #[kani::stub(std::rt::thread_cleanup, noop)]
-    #[kani::stub(std::hash::RandomState::new, zero_random_state)]
-    fn c15_twin_tablet_for_token() {
-        const N: usize = 2;
+    fn twin_tablet_for_token<const N: usize>() {
         let (t, shape, n) = any_list::<N>();
         let tok: i64 = kani::any();
         kani::assume(tok != i64::MIN);
